@@ -97,6 +97,15 @@ func (C06) Gen(r *simrt.RNG, tier string) core.Case {
 		w.Args = append(w.Args, world.ArgSpec{Kind: world.ArgGen, Gen: &world.Gen{Trigger: r.Intn(world.NumStruct), Party: 1 + r.Intn(len(w.Parties)-1), Fault: 2}})
 		w.Ops[0].Args = append(w.Ops[0].Args, len(w.Args)-1)
 	}
+	// a generator that wraps whatever it is offered (X -> [1]X): only terminates if
+	// generators are not re-offered what they generated
+	if r.Chance(1, 30) && len(w.Parties) > 1 {
+		w.Args = append(w.Args, world.ArgSpec{Kind: world.ArgGen, Gen: &world.Gen{Trigger: 0, Party: 1, Fault: 3}})
+		oi := r.Intn(len(w.Ops))
+		if w.Ops[oi].Kind != world.OpCallRedef {
+			w.Ops[oi].Args = append(append([]int{}, w.Ops[oi].Args...), len(w.Args)-1)
+		}
+	}
 	return RCase{W: w}
 }
 
@@ -187,6 +196,9 @@ func (C06) Run(c core.Case, ctx *core.Ctx) []core.Violation {
 		}
 		if genFault {
 			ctx.St.Inc("c06_generator_fault")
+		}
+		if rt.FaultsFired["gen_wrap"] > 0 {
+			ctx.St.Inc("c06_wrapping_generator")
 		}
 		if cyc {
 			ctx.St.Inc("c06_cyclic_worlds")
